@@ -12,6 +12,30 @@ CLAIMED = {
    note="Trusted: the prefix crash model (files keep a write-order-respecting prefix; no reordered write-back, no bit rot), real file system semantics of tmpfs/ext4 for the scratch directory, the reference map. Process-killing SUT panics are detected through a worker journal and confirmed in a fresh process."),
 }
 
+VOLNOTE = "Trusted: the reference map, tmpfs/ext4 semantics of the scratch directory, the harness's knowledge of the needle record layout where bytes are flipped. Interleavings are explored at the granularity of H2 yield points and operation boundaries, not at instruction level. Known findings (specific inputs) are listed in known_findings.json and printed as KNOWN-FINDING."
+CLAIMED.update({
+ "C01": dict(engine="volsim", design="§6 C01",
+   technique=TECH + "write-fault injection (EIO, ENOSPC, short write, failed sync/truncate) through the Volume.DataBackend seam, clean restarts, reference map oracle relaxed per faulted operation only",
+   text="Seeded histories of uploads (incl. identical rewrites, empty payloads, batched fsync path), deletes, reads, read-only toggles and clean restarts on the real Store/Volume, checked operation by operation against a reference map (data, name, mime, pairs, last-modified, compression, TTL). Separate fault-free and fault-injecting configurations; after a faulted operation the key may hold the old or the new value, never a third. The cookie clause (wrong-cookie read/delete) lives in the HTTP handlers and is not decided by this check.",
+   note=VOLNOTE),
+ "C02": dict(engine="volsim", design="§6 C02",
+   technique=TECH + "silent-corruption injection (single bit flips in stored data bytes) and record-by-record scans checked against the append log",
+   text="Partial claim: the encode/decode equality is a pure function and is only sampled (boundary lengths x name/mime lengths x flags, needle versions 2 and 3). Simulation decides the fault part: a flipped stored data byte must surface as an error, never as altered data; a scan visits exactly the appended records in order at 8-byte aligned offsets.",
+   note=VOLNOTE),
+ "C04": dict(engine="volsim", design="§6 C04, §3.3",
+   technique=TECH + "scheduler-chosen interleaving of uploads/deletes/clock moves with Compact/Compact2/CommitCompact parked at yield points; twin-volume refinement oracle",
+   text="The real compaction code runs in its own goroutine and is parked by the scheduler after the index snapshot, at each visited needle and before the commit lock while the plan releases writes, deletes and clock advances; a twin volume receives the same operations and is never compacted. Immediately after each commit every key must read identically on both (same fake instant). TTL and non-TTL volumes, client timestamps, empty blobs, both algorithms, both needle-map kinds.",
+   note=VOLNOTE),
+ "C05": dict(engine="volsim", design="§6 C05",
+   technique=TECH + "clean-restart injection between index operations; reference map + counter-equality oracle; default and 5BytesOffset builds",
+   text="Index operations are driven through the real Volume over adversarial key orders; lookups are compared with a reference map and FileCount/DeletedCount/ContentSize/DeletedSize/MaxFileKey before each clean restart with the values after reload, for the in-memory and LevelDB maps (LevelDB directory judged fresh or stale by plan), built with 4-byte and 5-byte offsets. Offsets above 32 bits and the sorted-file map (read-only volumes) are not reached by this check.",
+   note=VOLNOTE),
+ "C09": dict(engine="volsim", design="§6 C09, §3.2",
+   technique=TECH + "fake-clock jumps placed around expiry instants, compaction and heartbeat-driven volume expiry at chosen instants; reference model readable iff now < append + TTL",
+   text="Volume-level part of the property: blobs with TTLs of every unit, volume TTL equal/different/absent, client timestamps; the fake clock jumps to just before/after expiry; reads, both compaction algorithms and the store's heartbeat (which deletes expired TTL volumes) run at chosen instants. The filer clause (volume TTL >= entry TTL) is not decided here.",
+   note=VOLNOTE),
+})
+
 PLANNED = {}
 
 NA = {
